@@ -150,6 +150,10 @@ def scaled_calls(cls, p, g, d, operands, rng, ints, npairs=300, as_integer=None)
                     rec('muldiv', rnd, a, b, c, lambda: V.muldiv(A, B, C, round=rnd))
             c2 = rng.choice(operands)
             rec('min', 'op', a, b, c2, lambda: V.min([A, B, mk(c2)]))
+    # the minimum is the least stored value, whatever the order of the list and however close the values are
+    for x in operands[::max(1, len(operands) // 12)]:
+        for t in ((x, x - 1, x - 2), (x, x + 1, x - 1), (x - 1, x, x - 2), (x, x - (geps - 1 if geps > 1 else 1), x + 1)):
+            rec('min', 'op', t[0], t[1], t[2], (lambda t=t: V.min([mk(t[0]), mk(t[1]), mk(t[2])])))
     return out
 
 
@@ -197,6 +201,19 @@ def rational_calls(d, operands, rng, tier='quick'):
         if c != 0:
             rec('muldiv', A, B, C, V.muldiv(A, B, C, round='up'))
         rec('min', A, B, C, V.min([A, B, C]))
+    # a plain int or Fraction on the LEFT of an operator (reflected methods): the result is exact and again a Rational
+    for a in operands[:8]:
+        A = V(a.numerator, a.denominator)
+        for k in (0, 1, 2, -3, Fraction(5, 2)):
+            K = Fraction(k)
+            rec('add', K, A, Z, k + A)
+            rec('sub', K, A, Z, k - A)
+            rec('mul', K, A, Z, k * A)
+            if a != 0:
+                try:
+                    rec('div', K, A, Z, k / A)
+                except Exception:
+                    rec('div', K, A, Z, None)
     return out
 
 
@@ -342,7 +359,7 @@ def all_calls(rng, tier):
         for d in (None, 0, 1, p, p + 1, p + g, p + g + 3):
             cfgs.append(('guarded', p, g, d))
     if tier == 'quick':
-        must = [('guarded', 0, 2, 1), ('guarded', 2, 0, 1), ('guarded', 3, 0, 0), ('fixed', 3, 0, 1), ('guarded', 2, 2, 1), ('guarded', 3, 1, 4)]
+        must = [('fixed', 3, 0, 5), ('guarded', 0, 2, 1), ('guarded', 2, 0, 1), ('guarded', 3, 0, 0), ('fixed', 3, 0, 1), ('guarded', 2, 2, 1), ('guarded', 3, 1, 4)]
         rng.shuffle(cfgs)
         cfgs = must + [c for c in cfgs if c not in must][:11]
     for cls, p, g, d in cfgs:
